@@ -16,12 +16,28 @@ func cookieTokens(c *protocol.Cookie) []string {
 		strconv.Itoa(int(c.SameSite())), b2i(c.Partitioned())}
 }
 
+// usedURI / usedCookie: objects that were used before and reset, as the pools hand them out.
+func usedURI() *protocol.URI {
+	u := &protocol.URI{}
+	u.Parse([]byte("old.example:81"), []byte("/old/p%41th/?token=secret&flag&yy=v2#oldfrag"))
+	u.QueryArgs().Len()
+	u.Reset()
+	return u
+}
+
+func usedCookie() *protocol.Cookie {
+	c := &protocol.Cookie{}
+	c.ParseBytes([]byte("old=secret; max-age=99; domain=old.example; path=/old; HttpOnly; secure; SameSite=Strict; Partitioned")) //nolint:errcheck
+	c.Reset()
+	return c
+}
+
 func init() {
 	// uriparse host uri -> fields, FullURI
 	ops["uriparse"] = func(a []string) []string {
-		var u protocol.URI
+		u := usedURI()
 		u.Parse(unhx(a[0]), unhx(a[1]))
-		return append(uriTokens(&u), hx(u.FullURI()))
+		return append(uriTokens(u), hx(u.FullURI()))
 	}
 	// urirt scheme host path hash n (k v)* -> full, re-parsed fields, full again
 	ops["urirt"] = func(a []string) []string {
@@ -35,10 +51,10 @@ func init() {
 			u.QueryArgs().Add(string(unhx(a[5+2*i])), string(unhx(a[6+2*i])))
 		}
 		full := append([]byte(nil), u.FullURI()...)
-		var v protocol.URI
+		v := usedURI()
 		v.Parse(nil, full)
 		out := []string{hx(full)}
-		out = append(out, uriTokens(&v)...)
+		out = append(out, uriTokens(v)...)
 		var q []string
 		v.QueryArgs().VisitAll(func(k, val []byte) { q = append(q, hx(k), hx(val)) })
 		out = append(out, strconv.Itoa(len(q)/2))
@@ -48,11 +64,11 @@ func init() {
 	}
 	// cookieparse src -> ok fields | err
 	ops["cookieparse"] = func(a []string) []string {
-		var c protocol.Cookie
+		c := usedCookie()
 		if err := c.ParseBytes(unhx(a[0])); err != nil {
 			return []string{"err"}
 		}
-		return append([]string{"ok"}, cookieTokens(&c)...)
+		return append([]string{"ok"}, cookieTokens(c)...)
 	}
 	// cookiert key value maxage domain path httponly secure samesite partitioned expireUnix(0 = none) -> string, re-parsed fields, expire ok
 	ops["cookiert"] = func(a []string) []string {
@@ -77,12 +93,12 @@ func init() {
 			c.SetExpire(et)
 		}
 		s := append([]byte(nil), c.Cookie()...)
-		var d protocol.Cookie
+		d := usedCookie()
 		if err := d.ParseBytes(s); err != nil {
 			return []string{hx(s), "err"}
 		}
 		expOK := ex == 0 || n > 0 || d.Expire().Equal(et)
-		return append(append([]string{hx(s), "ok"}, cookieTokens(&d)...), b2i(expOK), b2i(c.Secure()))
+		return append(append([]string{hx(s), "ok"}, cookieTokens(d)...), b2i(expOK), b2i(c.Secure()))
 	}
 }
 
